@@ -2,6 +2,6 @@
 # Builds every flavour of /repo's working tree + drivers (offline), then plumbing self-tests.
 set -e
 cd "$(dirname "$0")"
-python3 vlib/build.py san plain tsan hdr
+python3 vlib/build.py san plain tsan hdr fuzz
 if [ -x ./selfcheck.sh ]; then ./selfcheck.sh; fi
 echo "setup ok"
